@@ -475,7 +475,7 @@ func checkTokenBucket(c *Ctx, rule string) {
 			"the bucket clock is overwritten without knowing that the new instant is later: a request carrying an older timestamp (the clock is read before the limiter's mutex is taken) rewinds it, and the interval already paid out is credited again — more than burst + rps×window is admitted")
 	}
 	// (d) mutex
-	lm := p.lockAnalysis("app", tname, "mu")
+	lm := p.lockAnalysis("app", tname, p.mutexField("app", tname))
 	nAcc, badL := 0, false
 	for _, a := range lm.Accesses {
 		if a.Fn == allow {
